@@ -456,6 +456,14 @@ impl KotoVm {
 
     /// Provides the result of running a unary operation on a KValue
     pub fn run_unary_op(&mut self, op: UnaryOp, value: KValue) -> Result<KValue> {
+        // If the operation fails before it completes then the registers that it pushed need to
+        // be removed from the stack here.
+        let first_register = self.next_register();
+        self.run_unary_op_inner(op, value)
+            .inspect_err(|_| self.truncate_registers(first_register))
+    }
+
+    fn run_unary_op_inner(&mut self, op: UnaryOp, value: KValue) -> Result<KValue> {
         use UnaryOp::*;
 
         let old_frame_count = self.call_stack.len();
@@ -495,6 +503,14 @@ impl KotoVm {
 
     /// Provides the result of running a binary operation on a pair of Values
     pub fn run_binary_op(&mut self, op: BinaryOp, lhs: KValue, rhs: KValue) -> Result<KValue> {
+        // If the operation fails before it completes then the registers that it pushed need to
+        // be removed from the stack here.
+        let first_register = self.next_register();
+        self.run_binary_op_inner(op, lhs, rhs)
+            .inspect_err(|_| self.truncate_registers(first_register))
+    }
+
+    fn run_binary_op_inner(&mut self, op: BinaryOp, lhs: KValue, rhs: KValue) -> Result<KValue> {
         let old_frame_count = self.call_stack.len();
 
         let result_register = self.next_register();
@@ -572,6 +588,17 @@ impl KotoVm {
         container: KValue,
         read_arg: KValue,
     ) -> Result<KValue> {
+        let first_register = self.next_register();
+        self.run_read_op_inner(op, container, read_arg)
+            .inspect_err(|_| self.truncate_registers(first_register))
+    }
+
+    fn run_read_op_inner(
+        &mut self,
+        op: ReadOp,
+        container: KValue,
+        read_arg: KValue,
+    ) -> Result<KValue> {
         let old_frame_count = self.call_stack.len();
 
         let result_register = self.next_register();
@@ -600,6 +627,18 @@ impl KotoVm {
 
     /// Provides the result of running a write operation (i.e. via access or index)
     pub fn run_write_op(
+        &mut self,
+        op: WriteOp,
+        container: KValue,
+        write_arg: KValue,
+        write_value: KValue,
+    ) -> Result<KValue> {
+        let first_register = self.next_register();
+        self.run_write_op_inner(op, container, write_arg, write_value)
+            .inspect_err(|_| self.truncate_registers(first_register))
+    }
+
+    fn run_write_op_inner(
         &mut self,
         op: WriteOp,
         container: KValue,
